@@ -49,8 +49,8 @@ def jobs(tier):
             if tier == "quick" and (a, b) in (("G", "G"), ("B", "G")):
                 for c in ("EB", "EC"):
                     js.append(dict(name="P:%s-%s-%s" % (a, b, c), pipe=[a, b, c]))
-            if tier == "thorough" and a in ("G", "EB", "E0") and b in ("EB", "E0", "EC", "G"):
-                for c in ("G", "EB", "E0"):
+            if tier == "thorough" and a in ("G", "EB") and b in ("EB", "E0", "G"):
+                for c in ("G", "EB"):
                     js.append(dict(name="P:%s-%s-%s" % (a, b, c), pipe=[a, b, c]))
     return js
 
